@@ -17,9 +17,9 @@ import (
 func init() {
 	Register(&Rule{
 		ID:    "R-ALIAS",
-		Doc:   "every store into the decode destination of a string/Number/RawMessage/[]byte that may alias the input buffer (through unsafe []byte→string views, slicing, φ, callees' returned aliases) is reachable only through an edge on which the matching DontCopy* flag is set or parseStringUnquote reported a fresh buffer; key fragments are not written after their unsafe string view is taken",
-		Props: []string{"C10", "C14"},
-		Min:   map[string]int{"C10": 4, "C14": 4},
+		Doc:   "every store into the decode destination of a string/Number/RawMessage/[]byte that may alias the input buffer (through unsafe []byte→string views, slicing, φ, callees' returned aliases) is reachable only through an edge on which the matching DontCopy* flag is set or parseStringUnquote reported a fresh buffer; key fragments are not written after their unsafe string view is taken; parseStringUnquote reports a fresh buffer only when it returns its output buffer",
+		Props: []string{"C10", "C14", "C11"},
+		Min:   map[string]int{"C10": 4, "C14": 4, "C11": 1},
 		Run:   runAlias,
 	})
 }
@@ -53,6 +53,57 @@ func runAlias(c *core.Ctx) []core.Obligation {
 			return "DontCopyRawMessage", flagVal("DontCopyRawMessage")
 		}
 		return "", 0
+	}
+
+	// parseStringUnquote's third result tells callers "the text is in a buffer you own": it may be
+	// true only when the returned text is not (a part of) the input
+	if fn := c.Lookup("json.(decoder).parseStringUnquote"); fn != nil {
+		isInput := func(v ssa.Value) bool {
+			return dependsOn(v, func(x ssa.Value) bool {
+				if ex, ok := x.(*ssa.Extract); ok {
+					if call, ok := ex.Tuple.(*ssa.Call); ok {
+						if f := staticCallee(call.Common()); f != nil && f.Name() == "parseString" {
+							return true
+						}
+					}
+				}
+				if p, ok := x.(*ssa.Parameter); ok && len(fn.Params) > 1 && p == fn.Params[1] {
+					return true // b, the input
+				}
+				return false
+			})
+		}
+		n, bad := 0, ""
+		for _, r := range returnsOf(fn) {
+			if len(r.Results) != 4 {
+				continue
+			}
+			k, isK := r.Results[2].(*ssa.Const)
+			if !isK || k.Value == nil || k.Value.String() != "true" {
+				continue
+			}
+			n++
+			// the text handed back: must come from the output buffer (param r / make), never
+			// directly from the input
+			if sl := r.Results[0]; isInput(sl) && !dependsOn(sl, func(x ssa.Value) bool {
+				_, isMake := x.(*ssa.MakeSlice)
+				if p, ok := x.(*ssa.Parameter); ok && len(fn.Params) > 2 && p == fn.Params[2] {
+					return true
+				}
+				return isMake
+			}) {
+				bad = c.InstrPos(r)
+			}
+		}
+		key := "unquote:fresh-flag"
+		switch {
+		case n == 0:
+			b.addP([]string{"C10", "C14", "C11"}, core.Undecided, key, c.FuncPos(fn), "parseStringUnquote never reports a fresh buffer")
+		case bad != "":
+			b.addP([]string{"C10", "C14", "C11"}, core.Violation, key, bad, "parseStringUnquote returns a part of the input while reporting that the text is in a fresh buffer: callers then build strings on the input without copying, and a Decoder overwrites them at its next refill")
+		default:
+			b.addP([]string{"C10", "C14", "C11"}, core.Discharged, key, c.FuncPos(fn), fmt.Sprintf("%d return(s) report a fresh buffer, each hands back the output buffer", n))
+		}
 	}
 
 	var fns []*ssa.Function
